@@ -22,6 +22,9 @@ CHECKS = {
     "C12": dict(cat="exploration", tech="history + model: every fit event of Model.fit replayed against the training-loop model (positives = accepted targets under the previous outputs, negatives = all decoys); metamorphic row/shuffle/column permutation and save/load",
                 text="Direct observation of what the estimator is fed in each iteration, for shuffled, unshuffled and row-permuted variants.",
                 note="start feature/direction read from the fitted model (C07 judges that choice)", ref="5/C12"),
+    "C05": dict(cat="exploration", tech="metamorphic monitor: baseline vs variants differing in one chunk-size constant / worker count with injected delays and 1e-6 GIL switch interval / Parquet row-group layout; MOKAPOT_* environment variants in fresh interpreters",
+                text="The identical table is run through read_pin -> brew -> assign_confidence in many configurations; scores and result files must agree (tie tolerant for the calibration-induced cross-fold ties); evidence reports threads actually observed.",
+                note="PEP column compared only when scores are bit-identical (third-party spline fit is ill-conditioned)", ref="5/C05"),
     "C06": dict(cat="exploration", tech="invariant monitor (range, monotonicity, tie equality, permutation equivariance) on PEP / q-value estimators and on result-file PEP columns",
                 text="Every selectable PEP and q-value algorithm is run on unsorted mixtures and on permutations of them; output files of assign_confidence are checked per algorithm.",
                 note="no reference PEP values asserted; equivariance of interpolating q-estimators demanded on tie-free input only", ref="5/C06"),
